@@ -1001,9 +1001,61 @@ def check_C18(tier, seed, replay):
             if not r["ok"] and r["valid"] and not r["panic"]:
                 res.add(Violation("C18", "Fresh", "run failed on a valid grammar (history %s, mode %s)" % (hl, m), None,
                                   dict(ex, site="err-on-valid")))
+    # 4. directory mode with two grammar files (BuildScriptDir.tla): every history, any listing order
+    td = tlc_simple("bs_dir", "BuildScriptDir.tla", "BuildScriptDir%s.cfg" % sfx, tier)
+    if td["rc"] != 0:
+        raise ToolError("BuildScriptDir violates its own property:\n%s" % (td["violation"] or "")[:2000])
+    dh = set()
+    for o in td["prints"]:
+        st_ = []
+        for x in o["h"]:
+            st_.append("e:%s:%s" % (x["f"], x["g"]) if x["a"] == "edit" else "d:%s" % x["f"] if x["a"] == "delete" else "r")
+        while st_ and st_[-1] != "r":
+            st_.pop()
+        if st_:
+            dh.add(";".join(st_))
+    dh = sorted(dh)
+    dh = [x for i_, x in enumerate(dh) if not (i_ + 1 < len(dh) and dh[i_ + 1].startswith(x + ";"))]
+    if replay:
+        dh = [json.load(open(replay))["history"]] if json.load(open(replay)).get("mode") == "dir2" else []
+    if dh:
+        df = os.path.join(d, "dir2.tsv")
+        with open(df, "w") as f:
+            for x in dh:
+                f.write("dir2\t0\t%s\n" % x)
+        do = os.path.join(d, "dir2.jsonl")
+        p2 = subprocess.run([binp, df, do, os.path.join(d, "scratch_dir2")], stdout=subprocess.PIPE, stderr=subprocess.PIPE, text=True, timeout=3600)
+        if p2.returncode != 0:
+            raise ToolError("buildscript replayer (directory mode) failed: %s" % p2.stderr[-800:])
+        for hl, l_ in zip(dh, open(do)):
+            o = json.loads(l_)
+            for r in o["runs"]:
+                steps += 1
+                ex = {"history": hl, "mode": "dir2", "format": False, "run_step": r["i"], "observed": r}
+                anybad = any(not f_["valid"] for f_ in r["files"].values())
+                if r["panic"]:
+                    res.add(Violation("C18", "NoPanic", "Compile::directory panicked in history %s" % hl, None, dict(ex, site="panic")))
+                elif r["ok"] and anybad:
+                    res.add(Violation("C18", "FailSafe", "Compile::directory returned Ok although a grammar of the directory is invalid "
+                                      "(history %s)" % hl, None, dict(ex, site="dir-ok-on-invalid")))
+                elif not r["ok"] and not anybad:
+                    res.add(Violation("C18", "Fresh", "Compile::directory failed although every grammar is valid (history %s)" % hl, None,
+                                      dict(ex, site="dir-err-on-valid")))
+                elif r["ok"]:
+                    for fn_, f_ in r["files"].items():
+                        if not f_["fresh"]:
+                            res.add(Violation("C18", "Fresh", "after a successful directory run %s.rs is not the compilation of %s.ebnf "
+                                              "(history %s)" % (fn_, fn_, hl), None, dict(ex, site="dir-stale")))
+                else:
+                    for fn_, f_ in r["files"].items():
+                        if not f_["valid"] and not f_["same"]:
+                            res.add(Violation("C18", "FailSafe", "a failing directory run changed the destination of the invalid grammar %s "
+                                              "(history %s)" % (fn_, hl), None, dict(ex, site="dir-changed-on-error")))
     res.coverage = {
-        "states": ti["distinct"] + sum(t["distinct"] for t in runs_), "transitions": ti["states"] + sum(t["states"] for t in runs_),
-        "traces_validated_against_impl": len(lines), "evaluations": steps, "distinct_nontrivial": nontriv,
+        "states": ti["distinct"] + td["distinct"] + sum(t["distinct"] for t in runs_),
+        "transitions": ti["states"] + td["states"] + sum(t["states"] for t in runs_),
+        "directory_mode_histories": len(dh),
+        "traces_validated_against_impl": len(lines) + len(dh), "evaluations": steps, "distinct_nontrivial": nontriv,
         "rule": "every history of {edit grammar (2 valid, syntactically invalid, semantically invalid, missing), change "
                 "prefix (empty, p, pq with p a proper prefix of pq, a rustfmt-unstable one), delete destination, run} up to "
                 "the depth bound, enumerated by TLC and replayed against the real Compile in file / explicit-destination / "
